@@ -49,6 +49,42 @@ def run(check, repo: Repo) -> None:
                    f"{PM}:ProbePixelated.initial_probe_weights@setter", f"{TOM}:ObjectConstraints.apply_hard_constraints")
     check.assume("field-of-view masks lie in [0, 1] (the property's quantifier); Gaussian/Butterworth smoothing is outside the amplitude claim")
 
+    # ---- R5 the constrained probe is the constraint of the CURRENT parameter (coupled) -----------------------
+    # The `probe` getter either applies the hard constraints on every read, or memoises the result under a key.  A key built from the tensor's identity
+    # (`data_ptr()`) and autograd version (`_version`) notices re-binding and tracked in-place operations — but NOT writes through `.data` (`p.data.copy_(…)`, `p.data[...] = …`),
+    # which keep the storage and bypass the version counter.  Memo ∧ such a write → stale orthogonalised modes.
+    pmm_, pcls_ = repo.cls(f"{PM}:ProbePixelated")
+    getter_ = next((f_ for f_ in pcls_.body if isinstance(f_, ast.FunctionDef) and f_.name == "probe" and any(unparse(d_) == "property" for d_ in f_.decorator_list)), None)
+    if getter_ is None:
+        raise AnalysisError("ProbePixelated.probe getter not found")
+    g_rets = [r.value for r in ast.walk(getter_) if isinstance(r, ast.Return) and r.value is not None]
+    kept_ = [r for r in g_rets if isinstance(r, ast.Attribute) and dotted(r.value) == "self" and r.attr.startswith("_") and r.attr != "_probe"]
+    key5 = "ProbePixelated.probe: every read returns the hard constraints applied to the current parameter"
+    if not kept_:
+        check.holds("C10-R5", key5, "no memoised return", pmm_.line(getter_))
+    else:
+        ident_key = any(isinstance(c_, ast.Call) and isinstance(c_.func, ast.Attribute) and c_.func.attr == "data_ptr" for c_ in ast.walk(getter_)) or \
+            any(isinstance(x_, ast.Attribute) and x_.attr == "_version" for x_ in ast.walk(getter_))
+        data_writes = []
+        for f_ in [x for x in pcls_.body if isinstance(x, ast.FunctionDef)]:
+            for c_ in calls_in(f_):
+                if isinstance(c_.func, ast.Attribute) and c_.func.attr.endswith("_") and not c_.func.attr.startswith("__") and isinstance(c_.func.value, ast.Attribute) \
+                        and c_.func.value.attr == "data" and dotted(c_.func.value.value) == "self._probe":
+                    data_writes.append((f_.name, c_))
+            for n_ in ast.walk(f_):
+                if isinstance(n_, (ast.Assign, ast.AugAssign)):
+                    for t_ in (n_.targets if isinstance(n_, ast.Assign) else [n_.target]):
+                        if isinstance(t_, ast.Subscript) and dotted(t_.value) == "self._probe.data":
+                            data_writes.append((f_.name, n_))
+        if ident_key and data_writes:
+            check.violated("C10-R5", key5, f"the getter returns the memoised `{unparse(kept_[0])}` under a key of data_ptr()/_version, and ProbePixelated.{data_writes[0][0]} writes the parameter "
+                           f"through `.data` (`{unparse(data_writes[0][1])[:50]}`): same storage, same version — a no-grad read after assigning a new probe returns the orthogonalised modes "
+                           f"of the PREVIOUS parameters", pmm_.line(data_writes[0][1]), definite=True)
+        elif ident_key:
+            check.holds("C10-R5", key5, "memo keyed on identity/version; no write through `.data` in the class", pmm_.line(getter_))
+        else:
+            raise AnalysisError("ProbePixelated.probe: memoised return under a key that is not recognised — staleness not decided")
+
     # ---- R1 value kinds of the object constraint ---------------------------------------------------------
     top = next((n for n in ahc.body if isinstance(n, ast.If) and "self.obj_type" in unparse(n.test)), None)
     if top is None:
